@@ -90,7 +90,16 @@ def field(e, name, idx=None):
         return ("OVF", e[1][:-len("WithOverflow")], e[2], e[3])
     if t == "PHI":
         arms = tuple((p, field(v, name, idx)) for (p, v) in e[2])
-        return mk_phi(e[1], arms)
+        # an arm that is "the same field of the value carried around this loop" adds nothing
+        keep = tuple((p, v) for (p, v) in arms
+                     if not (v[0] == "F" and v[2] == name and v[1][0] == "LOOP" and v[1][2] == e[1]))
+        if keep:
+            arms = keep
+        return mk_phi(e[1], arms, e[3])
+    if t == "UPDF":
+        if name not in e[2]:
+            return field(e[1], name, idx)
+        return ("F", e, name)
     if t == "V":
         # payload of Try::branch / map_err
         b, var = e[1], e[2]
@@ -121,15 +130,15 @@ def downcast(e, variant):
                 continue
             arms.append((p, downcast(v, variant)))
         if arms:
-            return mk_phi(e[1], tuple(arms))
+            return mk_phi(e[1], tuple(arms), e[3])
     return ("V", e, variant)
 
 
-def mk_phi(bb, arms):
+def mk_phi(bb, arms, key=None):
     vals = set(v for (_, v) in arms)
     if len(vals) == 1:
         return next(iter(vals))
-    return ("PHI", bb, tuple(arms))
+    return ("PHI", bb, tuple(arms), key)
 
 
 def subst(e, mapping):
@@ -156,7 +165,7 @@ def subst(e, mapping):
     if t == "CL":
         return ("CL", e[1], tuple(subst(v, mapping) for v in e[2]))
     if t == "PHI":
-        return mk_phi(e[1], tuple((p, subst(v, mapping)) for (p, v) in e[2]))
+        return mk_phi(e[1], tuple((p, subst(v, mapping)) for (p, v) in e[2]), e[3])
     return tuple(subst(x, mapping) if isinstance(x, tuple) else x for x in e)
 
 
@@ -193,6 +202,9 @@ class VF:
         self._entry = {}
         self._inprog = set()
         self._mut = None
+        self._headers = None
+        self.render_body = None
+        self._stack2 = {}
 
     # ---------------------------------------------------------- operands
     def const(self, c):
@@ -247,11 +259,22 @@ class VF:
             i -= 1
         return self.local_at_entry(l, bb)
 
+    def loop_headers(self):
+        if self._headers is None:
+            hs = set()
+            b = self.body
+            for u in b.reachable():
+                for h in b.succ[u]:
+                    if b.dominates(h, u):
+                        hs.add(h)
+            self._headers = hs
+        return self._headers
+
     def local_at_entry(self, l, bb):
         key = (l, bb)
         if key in self._entry:
             return self._entry[key]
-        if key in self._inprog:
+        if key in self._inprog or self._stack2.get(key, 0) >= 2:
             return ("LOOP", l, bb)
         if bb == 0:
             if 1 <= l <= self.body.argc:
@@ -260,20 +283,34 @@ class VF:
                 r = ("UNINIT", l)
             self._entry[key] = r
             return r
-        self._inprog.add(key)
+        header = bb in self.loop_headers()
+        # only loop headers carry the loop marker; any other re-entry means an irreducible
+        # cycle, which gets a marker too but is never memoised
+        if header:
+            self._inprog.add(key)
+        else:
+            self._stack2[key] = self._stack2.get(key, 0) + 1
         arms = []
         reach = self.body.reachable()
         for p in self.body.pred[bb]:
             if p not in reach:
                 continue
             arms.append((p, self.local_at_exit(l, p, bb)))
-        self._inprog.discard(key)
-        # drop arms that are just the loop-carried self value
+        if header:
+            self._inprog.discard(key)
+        else:
+            self._stack2[key] -= 1
         real = [(p, v) for (p, v) in arms if v != ("LOOP", l, bb)]
         if not real:
             r = ("UNINIT", l)
         else:
-            r = mk_phi(bb, tuple(real))
+            r = mk_phi(bb, tuple(real), self.body.key)
+        if not header:
+            if self._stack2.get(key, 0) > 0:
+                return r          # computed while re-entered inside a loop walk: query-local
+            for x in walk(r):
+                if x[0] == "LOOP" and x[1] == l and x[2] == bb:
+                    return r
         self._entry[key] = r
         return r
 
@@ -302,6 +339,24 @@ class VF:
                 roots[l] = path
         self._mut[call.bb] = roots
         return roots
+
+    def callee_mut_fields(self, c, l):
+        """When local l is passed whole by &mut to a local callee: the set of first-level fields
+        of it the callee (transitively, depth 2) may write; None if unknown."""
+        key = c.res or c.fn
+        callee = self.facts.fns.get(key) if key else None
+        if callee is None or (c.trait and not c.res):
+            return None
+        # which parameter receives l?
+        idxs = []
+        for i, a in enumerate(c.args):
+            if a[0] != "k":
+                r = self.ref_root(a[1][0], 0)
+                if r is not None and r[0] == l and not r[1]:
+                    idxs.append(i + 1)
+        if len(idxs) != 1:
+            return None
+        return mut_fields(callee, idxs[0], 2)
 
     @staticmethod
     def _fields(pl):
@@ -351,6 +406,12 @@ class VF:
                 return ("WITH", self.local_at(l, p, n), ("*",), ce)
             mr = self.mut_roots(c)
             if l in mr:
+                if not mr[l]:
+                    fs = self.callee_mut_fields(c, l)
+                    if fs is not None:
+                        if not fs:
+                            return self.local_at(l, p, n)
+                        return ("UPDF", self.local_at(l, p, n), fs, (c.fn, p))
                 return ("UPD", self.local_at(l, p, n), mr[l], (c.fn, p))
         elif t[0] == "yield":
             if t[3][0] == l:
@@ -443,7 +504,7 @@ class VF:
             arms.append((b, self.local_at(0, b, len(self.body.stmts(b)))))
         if not arms:
             return ("?", "noreturn")
-        return mk_phi(-1, tuple(arms))
+        return mk_phi(-1, tuple(arms), self.body.key)
 
     # ---------------------------------------------------------- guards
     def guards(self, bb):
@@ -463,10 +524,24 @@ class VF:
                 g.add((p, labs[0]))
         return g
 
-    def guard_text(self, u, lab, roots=None, short=True):
+    def guard_text(self, u, lab, roots=None, short=True, vfx=None, body=None, depth=0):
         t = self.body.term(u)
         c = self.operand(t[1], u, len(self.body.stmts(u)))
-        return guard_str(render(c, self.body, roots, short=short), lab, t[4], [a[0] for a in t[2]])
+        return guard_str(render(c, body or self.render_body or self.body, roots, depth + 8, short, vfx), lab, t[4], [a[0] for a in t[2]])
+
+    def feasible(self, bb):
+        """False when a dominating switch on a constant (after parameter substitution) excludes bb."""
+        for (u, lab) in self.body.edge_guards(bb):
+            t = self.body.term(u)
+            c = self.operand(t[1], u, len(self.body.stmts(u)))
+            if c[0] == "K":
+                vals = [a[0] for a in t[2]]
+                if lab == "otherwise":
+                    if c[1] in vals:
+                        return False
+                elif c[1] != lab:
+                    return False
+        return True
 
     def phi_arms(self, e):
         """[(frozenset of (switch_bb,label) distinguishing guards, value)] for a PHI."""
@@ -488,6 +563,93 @@ class VF:
 
 
 _summaries = {}
+_mutf = {}
+
+
+def mut_fields(callee, param, depth):
+    """First-level fields of *param (a &mut reference parameter) that callee may write."""
+    k = (callee.facts.cfg, callee.key, param)
+    if k in _mutf:
+        return _mutf[k]
+    _mutf[k] = None
+    out = set()
+    v = VF(callee, 0)
+
+    def root_of(local, d=0):
+        # does this local hold (a reborrow of) the parameter, or of a field of it?
+        if local == param:
+            return ()
+        if d > 6:
+            return None
+        sd = callee.single_def(local)
+        if not sd or sd[2] != "assign":
+            return None
+        rv = sd[4]
+        pl = None
+        if rv[0] in ("ref", "rawptr"):
+            pl = rv[2]
+        elif rv[0] == "use" and rv[1][0] in ("m", "c"):
+            pl = rv[1][1]
+        if pl is None:
+            return None
+        r = root_of(pl[0], d + 1)
+        if r is None:
+            return None
+        return r + VF._fields(pl)
+
+    ok = True
+    for b in range(callee.n):
+        if callee.is_cleanup(b):
+            continue
+        for s in callee.stmts(b):
+            if s[0] == "=":
+                pl = s[1]
+                if "*" in pl[1:]:
+                    r = root_of(pl[0])
+                    if r is not None:
+                        path = r + VF._fields(pl)
+                        if not path:
+                            ok = False
+                        else:
+                            out.add(path[0])
+                # taking &mut of a sub-place of the parameter
+                rv = s[2]
+                if rv[0] in ("ref", "rawptr") and ("mut" in rv[1].lower()):
+                    r = root_of(rv[2][0])
+                    if r is not None:
+                        path = r + VF._fields(rv[2])
+                        # only a problem if it escapes to a call: handled below via call args
+        t = callee.term(b)
+        if t[0] == "call":
+            c = callee.call_at(b)
+            for i, a in enumerate(c.args):
+                if a[0] == "k":
+                    continue
+                r = root_of(a[1][0])
+                if r is None:
+                    continue
+                ty = callee.local_ty(a[1][0])
+                if not ty.startswith("&mut") and not ty.startswith("*mut"):
+                    continue
+                path = r
+                if path:
+                    out.add(path[0])
+                else:
+                    sub = None
+                    key = c.res or c.fn
+                    cal2 = callee.facts.fns.get(key) if key and not (c.trait and not c.res) else None
+                    if cal2 is not None and depth > 0 and cal2.key != callee.key:
+                        sub = mut_fields(cal2, i + 1, depth - 1)
+                    if sub is None:
+                        ok = False
+                    else:
+                        out |= sub
+        elif t[0] == "drop":
+            pass
+    res = frozenset(out) if ok else None
+    _mutf[k] = res
+    return res
+
 
 
 def summary(callee, depth, stack):
@@ -561,6 +723,9 @@ def short(key):
     if k.startswith("<") and " as " in k:
         return k
     return k
+
+
+NOUPD = [False]
 
 
 def guard_str(c, lab, ty, values):
@@ -650,6 +815,10 @@ def render(e, body=None, roots=None, depth=0, short=False, vfx=None):
         if t == "C":
             name = shortname(e[1])
             tys = [shortty(x) for x in e[2] if not x.startswith("'") and "::" in x and not x.startswith("<")]
+            if e[1] in ("<T as std::convert::Into<U>>::into", "std::convert::Into::into", "std::convert::From::from") \
+                    and len(e[2]) >= 2 and len(e[3]) == 1:
+                tgt = e[2][1] if "Into" in e[1] else e[2][0]
+                return "into<%s>(%s)" % (shortty(tgt), R(e[3][0]))
             if e[1].startswith("std::mem::size_of") or e[1].startswith("core::mem::size_of"):
                 return "size_of<%s>" % (shortty(e[2][0]) if e[2] else "?")
             return "%s%s(%s)" % (name, ("<" + ",".join(tys) + ">") if tys and not e[3] or (tys and name.endswith("read_obj")) else "",
@@ -666,10 +835,14 @@ def render(e, body=None, roots=None, depth=0, short=False, vfx=None):
                                  ", ".join("%s: %s" % (n, R(v)) for (n, v) in e[3]))
         if t == "CAST":
             return "(%s as %s)" % (R(e[1]), shortty(e[2]))
-        if t == "PHI" and vfx is not None and vfx.body is body:
+        if t == "PHI" and vfx is not None:
+            vx = vfx.get(e[3]) if isinstance(vfx, dict) else (vfx if vfx.body.key == e[3] else None)
+        else:
+            vx = None
+        if vx is not None:
             arms = []
-            for (g, v) in vfx.phi_arms(e):
-                gs = " && ".join(sorted(vfx.guard_text(u, lab, roots) for (u, lab) in g))
+            for (g, v) in vx.phi_arms(e):
+                gs = " && ".join(sorted(vx.guard_text(u, lab, roots, vfx=vfx, body=body, depth=depth) for (u, lab) in g))
                 arms.append("%s => %s" % (gs or "_", R(v)))
             return "phi{%s}" % " | ".join(sorted(set(arms)))
     if t == "P":
@@ -703,6 +876,11 @@ def render(e, body=None, roots=None, depth=0, short=False, vfx=None):
         return "%s.%s" % (R(b), e[2])
     if t == "V":
         return "%s@%s" % (R(e[1]), e[2])
+    if t == "B" and e[1] in ("Ne", "Gt") and e[3][0] == "K" and e[3][1] == 0 and e[2][0] == "B" and e[2][1] == "BitAnd":
+        x, f = e[2][2], e[2][3]
+        if x[0] == "K" and f[0] != "K":
+            x, f = f, x
+        return "has(%s, %s)" % (R(x), R(f))
     if t == "B":
         a, b = R(e[2]), R(e[3])
         if e[1] in ("BitOr", "BitAnd", "BitXor", "Add", "Mul", "Eq", "Ne") and b < a:
@@ -731,7 +909,9 @@ def render(e, body=None, roots=None, depth=0, short=False, vfx=None):
         return "closure(%s)" % e[1].rsplit("::", 1)[-1]
     if t == "PHI":
         return "phi(%s)" % " | ".join(sorted(set(R(v) for (_, v) in e[2])))
-    if t == "UPD":
+    if t in ("UPD", "UPDF"):
+        if NOUPD[0]:
+            return R(e[1])
         return "upd(%s)" % R(e[1])
     if t == "KV":
         return "variant(%s)" % e[1]
